@@ -108,6 +108,12 @@ fn gen_prog(rng: &mut TestRng, i: usize, which: Which) -> ChainProg {
         nb = rng.random_range(2..5usize); // at least two branches: something is spawned
     }
     let try_res = rb(rng, 0.5) || kind.is_async;
+    // C17 "shadow" programs: `let` names on the branches, locals of the calling function with the same
+    // names, and a handler that mentions them - it must see the caller's locals
+    let shadow = which == Which::C17 && (i / 12) % 4 == 1;
+    if shadow {
+        nb = rng.random_range(2..5usize);
+    }
     let (force, close_mode) = match which {
         Which::C01 | Which::C10 => {
             let (sp, c) = SPELLINGS[i % 22];
@@ -338,12 +344,46 @@ fn gen_prog(rng: &mut TestRng, i: usize, which: Which) -> ChainProg {
         }
         nestings.extend(g.nest_log.iter().cloned());
         nest_pairs.extend(g.nest_pairs.iter().cloned());
-        let let_name = if rb(g.rng, if which == Which::C12 { 0.85 } else { 0.25 }) { Some((format!("nm{}", b), rb(g.rng, 0.3))) } else { None };
+        let let_name = if rb(g.rng, if which == Which::C12 || shadow { 0.85 } else { 0.25 }) { Some((format!("nm{}", b), rb(g.rng, 0.3))) } else { None };
         branches.push(ChainBranch { locals, let_name, init_ty: init_ty.clone(), init_text: init_text.clone(), ops, fin });
     }
     // C17: a handler whose body is a nested macro invocation over the results
     let mut handler: Option<(String, String)> = None;
-    if which == Which::C17 && rb(rng, 0.4) {
+    let mut branches = branches;
+    if shadow {
+        let arg_tys: Vec<Ty> = branches
+            .iter()
+            .map(|b| match (&b.fin, kind.is_try) {
+                (Ty::Opt(t), true) | (Ty::Res(t), true) => (**t).clone(),
+                (t, _) => t.clone(),
+            })
+            .collect();
+        let named: Vec<String> = branches.iter().filter_map(|b| b.let_name.as_ref().map(|n| n.0.clone())).collect();
+        let all_plain = arg_tys.iter().all(|t| !matches!(t, Ty::Iter(_) | Ty::Ref(_) | Ty::Fut(_) | Ty::Stream(_)));
+        if all_plain && !named.is_empty() {
+            let try_res = branches.first().map(|b| matches!(b.fin, Ty::Res(_))).unwrap_or(false);
+            let hk = if !kind.is_try {
+                "then"
+            } else if rb(rng, 0.5) {
+                "map"
+            } else {
+                "and_then"
+            };
+            let params: Vec<String> = arg_tys.iter().enumerate().map(|(i, t)| format!("a{}: {}", i, t.name())).collect();
+            let args: Vec<String> = (0..arg_tys.len()).map(|i| format!("a{}", i)).collect();
+            let tuple = format!("(({},), {})", named.join(", "), args.join(", "));
+            let val = match hk {
+                "and_then" if try_res => format!("Ok::<_, i64>({})", tuple),
+                "and_then" => format!("Some({})", tuple),
+                _ => tuple,
+            };
+            let body = if kind.is_async && hk != "map" { format!("ready({})", val) } else { val };
+            handler = Some((hk.to_string(), format!("|{}| {}", params.join(", "), body)));
+            for (k, n) in named.iter().enumerate() {
+                branches[0].locals.push(format!("let {} = inp::<i64>({});", n, 60 + k));
+            }
+        }
+    } else if which == Which::C17 && rb(rng, 0.4) {
         // unwrapped value types the handler receives
         let arg_tys: Vec<Ty> = branches
             .iter()
@@ -378,6 +418,39 @@ fn gen_prog(rng: &mut TestRng, i: usize, which: Which) -> ChainProg {
             // async then / and_then handlers return a future that the macro awaits
             let body = if kind.is_async && hkind != "map" { format!("ready({})", inv) } else { inv };
             handler = Some((hkind.to_string(), format!("|{}| {{ {} }}", params.join(", "), body)));
+        }
+    }
+    // C19: a handler that borrows a local of the calling function (async then / and_then: the future it
+    // returns holds the borrow) - no 'static requirement on handlers of the non-spawning macros either
+    if which == Which::C19 && rb(rng, 0.45) {
+        let arg_tys: Vec<Ty> = branches
+            .iter()
+            .map(|b| match (&b.fin, kind.is_try) {
+                (Ty::Opt(t), true) | (Ty::Res(t), true) => (**t).clone(),
+                (t, _) => t.clone(),
+            })
+            .collect();
+        let all_plain = arg_tys.iter().all(|t| !matches!(t, Ty::Iter(_) | Ty::Ref(_) | Ty::Fut(_) | Ty::Stream(_)));
+        if all_plain && arg_tys.len() <= 10 {
+            let try_res = branches.first().map(|b| matches!(b.fin, Ty::Res(_))).unwrap_or(false);
+            let hk = if !kind.is_try {
+                "then"
+            } else if rb(rng, 0.4) {
+                "map"
+            } else {
+                "and_then"
+            };
+            let params: Vec<String> = arg_tys.iter().enumerate().map(|(i, t)| format!("a{}: {}", i, t.name())).collect();
+            let args: Vec<String> = (0..arg_tys.len()).map(|i| format!("a{}", i)).collect();
+            let tuple = format!("(__hr.len() as i64, {})", args.join(", "));
+            let val = match hk {
+                "and_then" if try_res => format!("Ok::<_, i64>({})", tuple),
+                "and_then" => format!("Some({})", tuple),
+                _ => tuple,
+            };
+            let body = if kind.is_async && hk != "map" { format!("async move {{ {} }}", val) } else { val };
+            handler = Some((hk.to_string(), format!("{{ let __hr = &__hl; move |{}| {} }}", params.join(", "), body)));
+            branches[0].locals.push("let __hl = inp::<Vec<i64>>(77);".to_string());
         }
     }
     // C19: the non-spawning async macros with a (pass-through) custom joiner must not add a Send bound either
@@ -525,6 +598,7 @@ fn control_text(p: &ChainProg, idx: usize) -> Option<String> {
             let mut q = p.clone();
             q.options = String::new();
             let mut t = replace_word(&mac_fn(&q, idx, "ctl"), "Ns", "Sy");
+            t = t.replace("let __hr = &__hl;", "let __hr = __hl.clone();");
             for b in 0..q.branches.len() {
                 t = t.replace(&format!("__r{}.iter() |> rd(", b), &format!("__loc{}.clone().into_iter() |> rdo(", b));
                 t = t.replace(&format!("__m{}.iter_mut() |> inc_mut(", b), &format!("__locm{}.clone().into_iter() |> inco(", b));
@@ -533,8 +607,15 @@ fn control_text(p: &ChainProg, idx: usize) -> Option<String> {
         }
         // C17: nested invocations written as plain chains
         Which::C17 => {
-            // (a program without any nesting is its own control: it says nothing about nesting)
-            let mut t = mac_fn(p, idx, "ctl");
+            // (a program without any nesting is its own control: it says nothing about nesting);
+            // the `let` names get spellings that occur nowhere else
+            let mut q = p.clone();
+            for (b, br) in q.branches.iter_mut().enumerate() {
+                if let Some(n) = br.let_name.as_mut() {
+                    n.0 = format!("zz{}", b);
+                }
+            }
+            let mut t = mac_fn(&q, idx, "ctl");
             for _ in 0..4 {
                 for (m, plain) in p.nest_pairs.iter().rev() {
                     if t.contains(m.as_str()) {
@@ -829,8 +910,8 @@ pub fn run(id: &str, tier: &str, seed: u64) -> i32 {
         Which::C10 => "chain stage: typed chains as in C01 (all 22 operator spellings forced in turn, all 12 macro names) with block captures on 35 % of the operands and the clone- and drop-counting value type `Ck` in half of the scalar positions (fold / try_fold initial values, iterator items, Option / Result payloads); oracle against the documented chain compiled in the same binary: equal multiset of evaluation events (every operand expression and capture once, every callback as often as the std method calls it - per element for iterator callbacks), equal number of clones of counted values, no counted value alive after the result is dropped. Non-trivial = >= 2 callbacks invoked and >= 1 capture",
         Which::C07 => "bounds stage: typed chains with 2-4 branches under the eight thread- and task-spawning macro names whose values include `Sn` (holds a Cell: Send but not Sync) in half of the scalar positions; the reference side passes every branch through `require_thread(move || ..)` / `require_task(..)` (FnOnce / Future + Send + 'static - exactly what the README documents for spawning); oracle: the macro side compiles whenever the reference does, and both give the same result and per-branch callback traces. Non-trivial = >= 2 operators and >= 1 callback invoked",
         Which::C12 => "chain stage: typed chains under all 12 macro names in which 85 % of the branches carry `let name =` / `let mut name =` on the macro side only, 60 % of them with an initial value that binds weaker than a method call (`a + b`, `-x`, `!b`, `x as T`, `a == 2`); metamorphic oracle: the named program equals the documented chain written without any name (result, callback traces, event multiset). Non-trivial = >= 2 operators and >= 1 callback invoked",
-        Which::C17 => "nesting stage: typed chains under all 12 macro names in which 45 % of the callback operands are closures around a nested macro invocation (any of the 12 names, chosen by the type the operand must return; async ones driven by a no-op-waker poll loop), block captures that evaluate a nested invocation, initial values that are macro invocations, and (40 % of the programs) a then / map / and_then handler whose body is a nested invocation over the results; nested bodies are generated by the same chain generator, recursively to depth 3 (wrappers, captures, further nestings inside). Oracle (metamorphic + differential): the outer macro against the documented chain with the same operand text - so every nested invocation is evaluated once inside a macro expansion and once in plain Rust - equal results, callback traces and event multisets. Non-trivial = >= 2 operators and >= 1 callback invoked; classes count nestings by place, inner macro and depth",
-        Which::C19 => "bounds stage: typed chains under join! / try_join! / join_async! / try_join_async! with 1-7 branches whose values include `Ns` (holds an Rc: neither Send nor Clone) and `Mv` (move-only) in 60 % of the scalar positions, and half of whose branches borrow - shared (`&Vec` iterated) or mutably (`iter_mut` with a callback that changes the element in place) - from locals of the calling function; oracle: the macro side compiles whenever the documented chain compiles (a new Clone / Send / 'static requirement is a compile error on the macro side only) and both give the same result and callback traces. Non-trivial = >= 2 operators and >= 1 callback invoked",
+        Which::C17 => "nesting stage: typed chains under all 12 macro names in which 45 % of the callback operands are closures around a nested macro invocation (any of the 12 names, chosen by the type the operand must return; async ones driven by a no-op-waker poll loop), block captures that evaluate a nested invocation, initial values that are macro invocations, and (40 % of the programs) a then / map / and_then handler whose body is a nested invocation over the results; nested bodies are generated by the same chain generator, recursively to depth 3 (wrappers, captures, further nestings inside); a quarter of the programs are 'shadow' programs instead: 2-4 branches with `let` names, locals of the calling function spelled the same, and a handler that mentions them (it must see the caller's locals; the control spells the `let` names differently). Oracle (metamorphic + differential): the outer macro against the documented chain with the same operand text - so every nested invocation is evaluated once inside a macro expansion and once in plain Rust - equal results, callback traces and event multisets. Non-trivial = >= 2 operators and >= 1 callback invoked; classes count nestings by place, inner macro and depth",
+        Which::C19 => "bounds stage: typed chains under join! / try_join! / join_async! / try_join_async! with 1-7 branches whose values include `Ns` (holds an Rc: neither Send nor Clone) and `Mv` (move-only) in 60 % of the scalar positions, and half of whose branches borrow - shared (`&Vec` iterated) or mutably (`iter_mut` with a callback that changes the element in place) - from locals of the calling function; 45 % of the programs have a then / map / and_then handler that borrows a local of the caller (async then / and_then: the future it returns holds the borrow); oracle: the macro side compiles whenever the documented chain compiles (a new Clone / Send / 'static requirement is a compile error on the macro side only) and both give the same result and callback traces. Non-trivial = >= 2 operators and >= 1 callback invoked",
         Which::C11 => "chain stage: typed chains in which program i is forced to contain hoistable operator i mod 18 (the 14 expression-operand operators, `^@` / `?^@` twice as often) with block operands on 60 % of the operand positions - both operands of fold / try_fold, operands inside nested wrappers, several per branch and step; oracle: per branch the sequence of capture evaluations equals the written (position) order, each exactly once. Non-trivial = >= 2 captures evaluated",
         Which::C02 => "programs: typed chains in which program i is forced to contain wrapper operator (i / 3) mod 10 with closing mode i mod 3 (explicit `<<<`, implicit at the end of a step, implicit at the end of the branch), nesting depth <= 3, inner chains of length 0-3 generated goal-directed for the type each wrapper needs (&T -> bool for ?> ?@ ?&!>, T -> Option for ?|> ?|>@ =>, E -> Result for <=, E -> E for !>, &W -> () for ??), inner block captures, operators after `<<<`; all 12 macro names; inputs and oracle as C01 with the reference `.x(|v| v inner...) rest`. Non-trivial = >= 2 operators and >= 1 callback invoked",
     }
@@ -859,6 +940,9 @@ pub fn run(id: &str, tier: &str, seed: u64) -> i32 {
             tally(&b.ops, &mut prev, &mut ev.classes, 0);
         }
         *ev.classes.entry(format!("macro {}", p.mac)).or_default() += 1;
+        if let Some((k, t)) = &p.handler {
+            *ev.classes.entry(format!("handler {}{}", k, if t.contains("&__hl") { " borrowing a local of the caller" } else if t.contains("((nm") { " mentioning locals of the caller that are spelled like the `let` names" } else { "" })).or_default() += 1;
+        }
         *ev.classes.entry(format!("family {}", match p.fam { Family::Sync => "sync", Family::AsyncClosed => "async: sync chain closed with -> ready", Family::AsyncReal => "async: real futures / streams" })).or_default() += 1;
         for (place, inner, depth) in &p.nestings {
             *ev.classes.entry(format!("nested in {} ({} inside {}) depth {}", place, if inner.contains("async") { "async" } else if inner.contains("spawn") { "spawn" } else { "sync" }, if p.mac.contains("async") { "async" } else if p.mac.contains("spawn") { "spawn" } else { "sync" }, depth + 1)).or_default() += 1;
